@@ -41,6 +41,9 @@ pub struct SysWorld {
     pub rolled: BTreeSet<u64>,
     pub paid: BTreeSet<(String, u64)>,
     pub first_bond_ns: BTreeMap<String, u64>,
+    /// after the distributor was replaced: the collector still holds take-rate records written for the old
+    /// distributor's epoch ids up to this one (only a missing or wrong record is judged for those ids)
+    pub stale_take_history_upto: u64,
 }
 
 fn native(d: &str) -> AssetRef {
@@ -244,7 +247,7 @@ pub fn build_sys(r: &mut Rng, p: &SysParams) -> SysWorld {
         ops: vec![],
         rolled: BTreeSet::new(),
         paid: BTreeSet::new(),
-        first_bond_ns: BTreeMap::new(),
+        first_bond_ns: BTreeMap::new(), stale_take_history_upto: 0,
     }
 }
 
@@ -551,6 +554,8 @@ pub fn monitored_new_epoch(acc: &mut Acc, wd: &mut SysWorld, caller: usize) -> b
                         Ok(c) if c.amount.u128() as i128 == want && c.denom == DIST => {}
                         other => acc.violation("C10", "F3/take-rate-history!=dao-take", detail(wd, json!({"history": format!("{other:?}"), "want": want.to_string(), "epoch": new.id.u64(), "step": what}))),
                     }
+                } else if history.is_ok() && new.id.u64() <= wd.stale_take_history_upto {
+                    acc.count("F3.stale-record-of-the-replaced-distributor");
                 } else if history.is_ok() {
                     acc.violation("C10", "F3/take-rate-history-recorded-for-zero-take", detail(wd, json!({"epoch": new.id.u64(), "step": what})));
                 }
@@ -558,7 +563,9 @@ pub fn monitored_new_epoch(acc: &mut Acc, wd: &mut SysWorld, caller: usize) -> b
                 if d_dao != 0 {
                     acc.violation("C10", "F3/dao-paid-although-take-rate-inactive", detail(wd, json!({"dao_delta": d_dao.to_string(), "step": what})));
                 }
-                if history.is_ok() {
+                if history.is_ok() && new.id.u64() <= wd.stale_take_history_upto {
+                    acc.count("F3.stale-record-of-the-replaced-distributor");
+                } else if history.is_ok() {
                     acc.violation("C10", "F3/take-rate-history-recorded-although-inactive", detail(wd, json!({"epoch": new.id.u64(), "step": what})));
                 }
             }
@@ -599,9 +606,42 @@ pub fn run_history(acc: &mut Acc, r: &mut Rng, steps: u64, prop: &str) {
     let mut wd = build_sys(r, &p);
     let mut class = vec![grace, (p.take_active as u64) * 2 + p.with_dao as u64, p.routes.iter().fold(0, |a, b| a * 2 + *b as u64)];
     let mut swaps_disabled = false;
+    // in a quarter of the histories the operator replaces the fee distributor once with a fresh instance: its epoch
+    // ids start again at 1, the collector and the bonding contract are pointed at it, the old one keeps what it holds
+    let mut may_replace_distributor = r.chance(1, 4);
     for _step in 0..steps {
         let ui = r.idx(3);
         let usr = wd.users[ui].clone();
+        if may_replace_distributor && r.chance(1, 25) && wd.all_epochs().len() >= 2 {
+            may_replace_distributor = false;
+            let cfg: fd::Config = query(&wd.app, &wd.core.distributor, &fd::QueryMsg::Config {}).unwrap();
+            let now = wd.app.block_info().time.nanos();
+            let (o, l, c) = (wd.core.owner.clone(), wd.core.lair.clone(), wd.core.collector.clone());
+            let nd = inst(
+                &mut wd.app,
+                wd.core.codes.distributor,
+                &o,
+                &fd::InstantiateMsg {
+                    bonding_contract_addr: l.to_string(),
+                    fee_collector_addr: c.to_string(),
+                    grace_period: cfg.grace_period,
+                    epoch_config: white_whale_std::epoch_manager::epoch_manager::EpochConfig { duration: cfg.epoch_config.duration, genesis_epoch: Uint64::new(now) },
+                    distribution_asset: cfg.distribution_asset.clone(),
+                },
+                &[],
+                "fee_distributor_2",
+                Some(o.to_string()),
+            )
+            .unwrap();
+            exec(&mut wd.app, &o, &l, &lm::ExecuteMsg::UpdateConfig { fee_distributor_addr: Some(nd.to_string()), owner: None, unbonding_period: None, growth_rate: None }, &[]).unwrap();
+            exec(&mut wd.app, &o, &c, &fc::ExecuteMsg::UpdateConfig { owner: None, pool_router: None, fee_distributor: Some(nd.to_string()), pool_factory: None, vault_factory: None, take_rate: None, take_rate_dao_address: None, is_take_rate_active: None }, &[]).unwrap();
+            wd.log(format!("operator replaces the fee distributor {} -> {} (epoch ids restart)", wd.core.distributor, nd));
+            wd.stale_take_history_upto = wd.all_epochs().iter().map(|e| e.id.u64()).max().unwrap_or(0);
+            wd.core.distributor = nd;
+            wd.rolled.clear();
+            wd.paid.clear();
+            acc.count("sys.distributor-replaced");
+        }
         let op = r.below(100);
         if op < 22 {
             // fee-generating swap on a pair
